@@ -16,6 +16,7 @@ import (
 	"flag"
 	"fmt"
 	"os"
+	"runtime"
 	"sort"
 	"strconv"
 	"strings"
@@ -129,6 +130,16 @@ func main() {
 		}
 		for len(vecs) < *nvec {
 			vecs = append(vecs, genVector(r, names))
+			if len(vecs)%1500 == 0 {
+				// maintenance block (ordinary valid commands): collections that only grow are cleared
+				// and re-created, so that the engine dumps taken around every vector stay small
+				for _, c := range maintenance {
+					vecs = append(vecs, vector{args: bb(c), base: c[0], mut: "maintenance"})
+				}
+				for _, c := range initState {
+					vecs = append(vecs, vector{args: bb(c), base: c[0], mut: "maintenance"})
+				}
+			}
 		}
 		if *big {
 			bv := bigVectors()
@@ -219,6 +230,7 @@ func main() {
 	}
 
 	probeN := int64(0)
+	stalls := 0
 	noReply := map[string]int{}
 	type pend struct {
 		id  string
@@ -362,6 +374,23 @@ func main() {
 		if obs.reply == "err" || obs.reply == "closed" || obs.reply == "timeout" || r.Pick(10) == 0 {
 			pobs, _, pafter := ln.send(bb([]string{"incr", "vns:probe:c"}))
 			probeN++
+			if pobs.reply == "timeout" {
+				// the probe was proposed but not answered in time: wait (up to 60 s) for the apply loop to
+				// catch up before calling the node stuck; the late probe has been applied by then
+				deadline := time.Now().Add(60 * time.Second)
+				for time.Now().Before(deadline) && ln.nd.GetAppliedIndex() < ln.nd.GetRaftStatus().Commit {
+					time.Sleep(100 * time.Millisecond)
+				}
+				if ln.nd.GetAppliedIndex() >= ln.nd.GetRaftStatus().Commit {
+					stalls++
+					pobs, _, pafter = ln.send(bb([]string{"incr", "vns:probe:c"}))
+					probeN++
+				} else {
+					buf := make([]byte, 1<<22)
+					n := runtime.Stack(buf, true)
+					fmt.Fprintf(os.Stderr, "APPLY LOOP STUCK: applied=%d commit=%d\n%s\n", ln.nd.GetAppliedIndex(), ln.nd.GetRaftStatus().Commit, buf[:n])
+				}
+			}
 			probe = "ok"
 			if pobs.reply != "ok" || len(ln.lastReps) != 1 || ln.lastReps[0].n != probeN {
 				probe = fmt.Sprintf("bad-reply:%s:%d!=%d", pobs.reply, firstN(ln.lastReps), probeN)
@@ -397,6 +426,7 @@ func main() {
 				rq = applyReq{dtype: node.RedisV2Req, args: v.args}
 			}
 			co.Printf("A%s.%d\tA\t%d\t%s\t%s\n", id, form, form, hx.HL(rq.args), floatTable(rq.args))
+			sbefore := dumpStore(sand.st.RockDB)
 			res := sand.applyEntries([][]applyReq{{rq}}, nextTs())
 			out := "nopanic"
 			rs := "none"
@@ -408,6 +438,24 @@ func main() {
 				rs = res.rsp[0]
 			}
 			io.Printf("A%s.%d\t%s %s\n", id, form, out, rs)
+			if rs == "err" {
+				// an erroring request must leave the committed state alone and nothing in the shared
+				// batch: the next successful write (health probe) must change its own keys only
+				safter := dumpStore(sand.st.RockDB)
+				if d := diffDump(sbefore, safter); len(d) > 0 {
+					oo.Printf("A%s.%d\tsandbox=error-changed verdict=%s n=%d key=%s err=%s\n", id, form, verdict, len(d), hx.H(d[0]), hx.H([]byte(trunc(res.etxt[0], 80))))
+				} else {
+					h := sand.applyEntries([][]applyReq{{{dtype: node.RedisReq, args: bb([]string{"set", "probe:s", id})}}}, nextTs())
+					if !h.panicked && !h.hung {
+						for _, k := range diffDump(safter, dumpStore(sand.st.RockDB)) {
+							if !bytes.Contains(k, []byte("probe")) {
+								oo.Printf("A%s.%d\tsandbox=leak verdict=%s key=%s err=%s\n", id, form, verdict, hx.H(k), hx.H([]byte(trunc(res.etxt[0], 80))))
+								break
+							}
+						}
+					}
+				}
+			}
 			if res.panicked || res.hung {
 				oo.Printf("A%s.%d\tsandbox=%s verdict=%s msg=%s\n", id, form, out, verdict, hx.H([]byte(trunc(res.pmsg, 120))))
 			}
@@ -445,7 +493,7 @@ func main() {
 		}
 	}
 	flushPair()
-	oo.Printf("END\tvectors=%d untemplated=%s\n", len(vecs), strings.Join(untemplated, ","))
+	oo.Printf("END\tvectors=%d stalls=%d untemplated=%s\n", len(vecs), stalls, strings.Join(untemplated, ","))
 	fmt.Fprintf(jf, "END\n")
 	jf.Close()
 }
